@@ -541,7 +541,7 @@ type engReq struct {
 	IK     string `json:"ik"`
 	Ref    string `json:"ref"`
 	Src    string `json:"src"`
-	Via    string `json:"via"` // lit | var | meta
+	Via    string `json:"via"` // lit | var | meta | alias | aliasmeta (the last two: source named by the literal AND, again, by a variable that is no source)
 	Over   *int64 `json:"over"`
 	Amount int64  `json:"amount"`
 	Dst    string `json:"dst"`
@@ -571,7 +571,18 @@ func (r engReq) script() ledger.RunScript {
 	if r.Over != nil {
 		od = fmt.Sprintf(" allowing overdraft up to [USD %d]", *r.Over)
 	}
-	if r.Sends > 1 {
+	if r.Via == "alias" || r.Via == "aliasmeta" {
+		// the debited account is named twice: by the literal in source position, and by a variable (declared first, so
+		// its resource index is the lower one) which is only ever a destination.  Two postings: src -> dst, world -> src.
+		if r.Via == "alias" {
+			sb.WriteString("vars {\n  account $back\n}\n")
+			vars["back"] = r.Src
+		} else {
+			sb.WriteString("vars {\n  account $back = meta(@registry, \"" + r.Src + "\")\n}\n")
+		}
+		fmt.Fprintf(&sb, "send [USD %d] (\n  source = @%s%s\n  destination = @%s\n)\n", r.Amount, r.Src, od, r.Dst)
+		sb.WriteString("send [USD 1] (\n  source = @world\n  destination = $back\n)\n")
+	} else if r.Sends > 1 {
 		for i := 0; i < r.Sends; i++ {
 			fmt.Fprintf(&sb, "send [USD %d] (\n  source = %s%s\n  destination = @m%d\n)\n", r.Amount+int64(i), src, od, i)
 		}
@@ -1125,6 +1136,16 @@ func genEngine(r *rng, n int, tier string, emit func(J)) {
 					q["over"] = 20
 				}
 				reqs = append(reqs, q)
+			}
+			// every other scenario of this family: the debited account is ALSO designated by a variable that is no source
+			// (decided from a copy of the generator state: the rest of the scenario, its plans included, is what it was before);
+			// c/8 = 0, 4, 8 … are scenarios explored exhaustively (dfs below), c/8 = 1, 5, 9 … by seeded random schedules
+			if ga := (&rng{s: g.s ^ 0xa11a5a11a5}); (c/8)%4 <= 1 {
+				for _, q := range reqs {
+					if ga.p(70) {
+						q["via"] = ga.pick([]string{"alias", "aliasmeta"})
+					}
+				}
 			}
 			if c%16 == 0 {
 				dfs = 400 // every interleaving of the visible steps
